@@ -23,15 +23,23 @@ func init() {
 		if m := c.L.Call("bytes", evArgs(e)...); m != out {
 			c.R.Mismatch("bytes", hin, out, m)
 		}
+		c.genCheck("bytes", hin, out, evArgs(e)...)
 		ln := safely(func() string { return fmt.Sprint(e.Len()) })
 		if m := c.L.Call("len", evArgs(e)...); m != ln {
 			c.R.Mismatch("len", hin, ln, m)
 		}
+		c.genCheck("len", hin, ln, evArgs(e)...)
 		if strings.HasPrefix(out, "panic") || strings.HasPrefix(ln, "panic") {
 			c.R.Violation("bytes.panic", hin, out+" "+ln, "", "serialising panicked")
 			return
 		}
 		b := e.Bytes()
+		// the slice handed out belongs to the caller: serialising ANOTHER event must not change it (a line kept for logging,
+		// relaying or replaying keeps its meaning)
+		if keptBytes != nil && string(keptBytes) != keptString {
+			c.R.Violation("bytes.aliased", hin, q(string(keptBytes)), q(keptString), "a []byte returned by an earlier Event.Bytes() call changed when another event was serialised")
+		}
+		keptBytes, keptString = b, string(b)
 		if bytes.ContainsAny(b, "\r\n") {
 			c.R.Violation("bytes.oneline", hin, out, "", "serialised event contains CR or LF: a second line can be smuggled")
 		}
@@ -113,6 +121,7 @@ func init() {
 			if m := c.L.Call("tagset", before, hx(k), hx(v)); m != implOut {
 				c.R.Mismatch("tagset", hin, implOut, m)
 			}
+			c.genCheck("tagset", hin, implOut, before, hx(k), hx(v))
 			if err == nil {
 				got, ok := t.Get(k)
 				if !ok || got != v {
@@ -144,6 +153,7 @@ func init() {
 		if m := c.L.Call("tagsbytes", encTags(t)); m != hx(string(t.Bytes())) {
 			c.R.Mismatch("tagsbytes", hin, hx(string(t.Bytes())), m)
 		}
+		c.genCheck("tagsbytes", hin, hx(string(t.Bytes())), encTags(t))
 	}
 
 	// grammar: a parse tree is rendered by the Lean spec; the implementation must parse the rendering to the
@@ -178,6 +188,11 @@ func init() {
 		c.R.Dist[fmt.Sprintf("grammar.wf=%v", wf)]++
 	}
 }
+
+var (
+	keptBytes  []byte
+	keptString string
+)
 
 func nontrivialEvent(e *girc.Event) bool {
 	return len(e.Params) > 0 || e.Source != nil || len(e.Tags) > 0
@@ -340,6 +355,7 @@ func (r *RNG) lineTree() map[string]string {
 }
 
 func runC02(c *Ctx) {
+	runC02Wire(c)
 	r := c.R
 	r.Rule = "(i) random parse trees of the RFC1459/2812+IRCv3 grammar (0-15 params, SPACE runs of length 1-4 between params, optional trailing, any subset of tags/source, " +
 		"letter/numeric commands in any case, LF/CRLF/no ending; middles containing TAB, NBSP, U+0085, ':' inside) rendered by the Lean spec and parsed by the implementation, " +
